@@ -16,7 +16,7 @@ func init() { items = append(items, emitC18) }
 var c18Cmp = map[token.Token]string{token.LSS: "CmpLt", token.LEQ: "CmpLe", token.GTR: "CmpGt", token.GEQ: "CmpGe", token.EQL: "CmpEq", token.NEQ: "CmpNe"}
 
 // localStrConst finds `const name = "..."` declared inside fd's body.
-func (t *tr) localStrConst(fd *ast.FuncDecl, name string) (string, bool) {
+func (t *tr) c18LocalStrConst(fd *ast.FuncDecl, name string) (string, bool) {
 	var out string
 	found := false
 	ast.Inspect(fd.Body, func(n ast.Node) bool {
@@ -60,10 +60,10 @@ func emitC18(t *tr) {
 		return
 	}
 	t.p("\n(* C18: storage cleaning (maintain.go) *)\nFrom CM Require Import Lib.CleanSyntax.\n")
-	if s, ok := t.localStrConst(cs, "lockName"); ok {
+	if s, ok := t.c18LocalStrConst(cs, "lockName"); ok {
 		t.p("Definition clean_lock_name : str := %s. (* lockName = %q *)\n", coqStr(s), s)
 	}
-	if s, ok := t.localStrConst(cs, "storageKey"); ok {
+	if s, ok := t.c18LocalStrConst(cs, "storageKey"); ok {
 		t.p("Definition clean_storage_key : str := %s. (* storageKey = %q *)\n", coqStr(s), s)
 	}
 	// CleanStorage: `if opts.Interval > 0` and `if time.Since(lastTLSClean.Timestamp) < opts.Interval`
@@ -159,7 +159,7 @@ func emitC18(t *tr) {
 			if exprStr(be.X) == "path.Ext(...)" && be.Op == token.NEQ {
 				if call := be.X.(*ast.CallExpr); len(call.Args) == 1 && exprStr(call.Args[0]) == "assetKey" {
 					if s, ok := c18Lit(be.Y); ok {
-						if _, isCont := firstStmt(x.Body).(*ast.BranchStmt); isCont {
+						if _, isCont := c18FirstStmt(x.Body).(*ast.BranchStmt); isCont {
 							ext = append(ext, s)
 						}
 					}
@@ -229,7 +229,7 @@ func emitC18(t *tr) {
 	}
 }
 
-func firstStmt(b *ast.BlockStmt) ast.Stmt {
+func c18FirstStmt(b *ast.BlockStmt) ast.Stmt {
 	if b == nil || len(b.List) == 0 {
 		return nil
 	}
